@@ -265,4 +265,26 @@ theorem accepts_generate_value (rnd : Rat → Rat) (hrnd : RndKeeps01 rnd) (cfg 
   ⟨by decide, by decide, by decide, step_protocol rnd cfg s 0 d,
    fun h hl => step_obs_valid rnd hrnd cfg hR s h hl 0 d⟩
 
+/-! ### audit r6 #2: `time_limit = 0` -/
+
+theorem condLast_obs' {O} (b : Bool) (r : List Rat) (o : O) : (condLast b r o).obs = o := by
+  unfold condLast; split <;> rfl
+
+theorem step_obs_stepCount (rnd : Rat → Rat) (cfg : Cfg) (s : State) (a : Int) (d : Nat) :
+    (step rnd cfg s a d).2.obs.stepCount = s.stepCount + 1 := by
+  simp only [step, condLast_obs']
+  rfl
+
+/-- with `time_limit ≤ 0` NO step observation from a state with a non-negative counter is a member of the declared spec
+(the counter becomes `≥ 1`, `DiscreteArray(time_limit + 1)` holds `0 … time_limit`) -/
+theorem time_limit_zero_step_obs_not_valid (rnd : Rat → Rat) (cfg : Cfg) (h0 : cfg.timeLimit ≤ 0) (s : State)
+    (hs : 0 ≤ s.stepCount) (a : Int) (d : Nat) :
+    (obsSpec cfg).valid (toNValue (step rnd cfg s a d).2.obs) = false := by
+  cases hv : (obsSpec cfg).valid (toNValue (step rnd cfg s a d).2.obs) with
+  | false => rfl
+  | true =>
+    have h := (obs_valid_only cfg _ hv).2.2.2.2.1
+    rw [step_obs_stepCount] at h
+    omega
+
 end Snake
